@@ -11,7 +11,10 @@ ASSUME = ["operands on the integer lattice with coordinates in -3..12; general s
 
 def check(tier, seed, t0):
     stride = 1
-    runs = [dict(name="pairs", module="Gen_Distance", constants=dict(Stride=stride, Offset=seed % stride), invariants=["DistLaws"])]
+    rs = 40 if tier == "quick" else 8
+    runs = [dict(name="pairs", module="Gen_Distance", constants=dict(Stride=stride, Offset=seed % stride), invariants=["DistLaws"]),
+            # the catalogue of C01 (all ten types, holes, touching members, collections): distance 0 iff the true matrix says "intersects"
+            dict(name="catalogue", module="Gen_Relate", constants=dict(N=2, Profile="base", Stride=rs, Offset=seed % rs, Emit="distance"), timeout=3000)]
     vf.simple_check("C07", tier, seed, t0, runs, RULE, ASSUME)
 
 
